@@ -42,15 +42,18 @@ Section Model.
   Definition fp_init (tb : table) (p_i : T) : option flowprops :=
     let p := t_pressure tb in
     let pp := t_pseudopressure tb in
-    let '(scale_col, alpha_col) :=
+    (* scaling factor: with a user-supplied diffusivity the reciprocal of the pseudopressure AT p_i (so that m_i = 1 for every p_i;
+       the library used to interpolate the reciprocals, repaired 2026-10), otherwise the column (c p mu z / 2 p^2) looked up at p_i *)
+    let '(factor_opt, alpha_col) :=
       match t_alpha tb with
-      | Some a => (map (fun m => n1 N /! m) pp, a)
+      | Some a => (match interp1d N Strict p pp p_i with Some v => Some (n1 N /! v) | None => None end, a)
       | None =>
-          (map (fun r => scaling_row (fst (fst (fst r))) (snd (fst (fst r))) (snd (fst r)) (snd r))
-               (combine (combine (combine (t_compressibility tb) p) (t_viscosity tb)) (t_zfactor tb)),
+          (interp1d N Strict p
+             (map (fun r => scaling_row (fst (fst (fst r))) (snd (fst (fst r))) (snd (fst r)) (snd r))
+                  (combine (combine (combine (t_compressibility tb) p) (t_viscosity tb)) (t_zfactor tb))) p_i,
            map2 (fun c mu => n1 N /! (c *! mu)) (t_compressibility tb) (t_viscosity tb))
       end in
-    match interp1d N Strict p scale_col p_i with
+    match factor_opt with
     | None => None
     | Some factor =>
         let ms := map (fun m => m *! factor) pp in
